@@ -386,4 +386,68 @@ theorem values_of_reach (a : Arr Bucket) (n L : Nat) (h : List (Nat × Bucket)) 
       rw [r'.L_eq] at hz
       exact hz
 
+/-! ## the exact form of the per-second items: reference plus the boundary bucket -/
+
+/-- the region of the known finding `items-boundary-bucket`: the read is issued exactly on a bucket boundary and no
+    call (creation included) has landed in the current bucket yet -/
+def BoundaryRegion (L now0 : Nat) (ops : List (Op Bucket)) (now : Nat) : Prop :=
+  now % L = 0 ∧ cbs L (lastTime now0 ops) ≠ cbs L now
+
+instance (L now0 : Nat) (ops : List (Op Bucket)) (now : Nat) : Decidable (BoundaryRegion L now0 ops now) := by
+  unfold BoundaryRegion; infer_instance
+
+/-- what the bucket that began exactly one array interval ago (`cbs now − n·L`, if it exists and satisfies the
+    caller's predicate) contributes to second `sec` -/
+def boundaryItem (L : Nat) (h : List (Nat × Bucket)) (n now lo hi sec : Nat) : Bucket :=
+  if n * L ≤ cbs L now ∧ lo ≤ cbs L now - n * L ∧ cbs L now - n * L ≤ hi ∧
+      (cbs L now - n * L) - (cbs L now - n * L) % 1000 = sec
+  then refW L h (cbs L now - n * L) (cbs L now - n * L) else 0
+
+theorem itemAt_refItems (L : Nat) (h : List (Nat × Bucket)) (starts : List Nat) (sec : Nat) :
+    itemAt (refItems L h starts) sec =
+      ((starts.filter fun b => b - b % 1000 = sec).map fun b => refW L h b b).sum := by
+  have hS : refItems L h starts = groupItems (starts.map fun b => b - b % 1000)
+      (fun sec => ((starts.filter fun b => b - b % 1000 = sec).map fun b => refW L h b b).sum) := rfl
+  rw [hS, itemAt_groupItems]
+  intro hns
+  have : (starts.filter fun b => b - b % 1000 = sec) = [] := by
+    rw [List.filter_eq_nil_iff]
+    intro b hb hbs
+    exact hns (List.mem_map.mpr ⟨b, hb, by simpa using hbs⟩)
+  simp [this]
+
+theorem lastStarts_succ (L cnt e : Nat) :
+    lastStarts L (cnt + 1) e = lastStarts L cnt e ++ (if cnt * L ≤ e then [e - cnt * L] else []) := by
+  unfold lastStarts
+  rw [List.range_succ, List.filterMap_append]
+  congr 1
+  by_cases h : cnt * L ≤ e <;> simp [h]
+
+theorem itemAt_refItems_succ (L : Nat) (h : List (Nat × Bucket)) (n now lo hi sec : Nat) :
+    itemAt (refItems L h (itemStarts L (n + 1) now lo hi)) sec =
+      itemAt (refItems L h (itemStarts L n now lo hi)) sec + boundaryItem L h n now lo hi sec := by
+  rw [itemAt_refItems, itemAt_refItems]
+  unfold itemStarts boundaryItem
+  rw [lastStarts_succ, List.filter_append, List.filter_append, List.map_append, List.sum_append]
+  congr 1
+  by_cases h1 : n * L ≤ cbs L now
+  · by_cases h2 : lo ≤ cbs L now - n * L ∧ cbs L now - n * L ≤ hi
+    · by_cases h3 : (cbs L now - n * L) - (cbs L now - n * L) % 1000 = sec
+      · simp [h1, h2, h3]
+      · simp [h1, h2, h3]
+    · have h2' : ¬ (lo ≤ cbs L now - n * L ∧ cbs L now - n * L ≤ hi ∧
+          (cbs L now - n * L) - (cbs L now - n * L) % 1000 = sec) := fun hc => h2 ⟨hc.1, hc.2.1⟩
+      have hd : decide (lo ≤ cbs L now - n * L ∧ cbs L now - n * L ≤ hi) = false := decide_eq_false h2
+      have h1' : ¬ (n * L ≤ cbs L now ∧ lo ≤ cbs L now - n * L ∧ cbs L now - n * L ≤ hi ∧
+          (cbs L now - n * L) - (cbs L now - n * L) % 1000 = sec) := fun hc => h2' hc.2
+      rw [if_pos h1, if_neg h1']
+      simp only [List.filter_cons, hd, Bool.false_eq_true, if_false, List.filter_nil, List.map_nil, List.sum_nil]
+  · simp [h1]
+
+theorem sum_map_zero (l : List Nat) (f : Nat → Bucket) (hz : ∀ b ∈ l, f b = 0) : (l.map f).sum = 0 := by
+  apply List.sum_eq_zero
+  intro x hx
+  obtain ⟨b, hb, rfl⟩ := List.mem_map.mp hx
+  exact hz b hb
+
 end Sentinel.C08
